@@ -4,7 +4,7 @@ numeric division functions refuse a non-constant polynomial divisor with Feature
 Oracle: the numpy function applied to plain `numpy.array(...)` of the same values and dtype.
 
 Input form (JSON):  {"fn": name, "args": [A..], "kwargs": {..}}  with
-    A = {"array": nested, "dtype": str, "poly": bool} | {"value": v} | {"tuple": [..]} | {"seq": [A..]} | {"poly": spec}
+    A = {"array": nested, "dtype": str, "poly": bool[, "shape": [..]]} | {"value": v} | {"tuple": [..]} | {"seq": [A..]} | {"poly": spec}
 Every input is run through both spellings, numpoly.<fn> and numpy.<fn> (when <fn> is mirrored)."""
 from __future__ import annotations
 import itertools
@@ -55,10 +55,31 @@ def thin(tier, rng, items, quick_fraction):
 
 
 # ------------------------------------------------------------------ running one input
+def _leaves(x):
+    if isinstance(x, (tuple, list)):
+        for v in x:
+            yield from _leaves(v)
+    else:
+        yield numpy.asarray(x)
+
+
+def empty_result(inp):
+    """numpy's result on the plain arrays contains a size-0 array (such inputs are routed to the size0 check)."""
+    try:
+        with warnings.catch_warnings(), numpy.errstate(all="ignore"):
+            warnings.simplefilter("ignore")
+            want = getattr(numpy, inp["fn"])(*[_arg(a, False) for a in inp["args"]], **_kw(inp.get("kwargs", {})))
+    except Exception:
+        return False
+    return any(v.size == 0 for v in _leaves(want))
+
+
 def _arg(a, as_poly):
     import numpoly
     if "array" in a:
         x = numpy.array(a["array"], dtype=a["dtype"])
+        if "shape" in a:                # size-0 shapes cannot be read off nested lists
+            x = x.reshape(a["shape"])
         return numpoly.polynomial(x) if (as_poly and a.get("poly", True)) else x
     if "poly" in a:
         return build(a["poly"])
@@ -361,7 +382,7 @@ SHAPE_FNS = ["reshape", "transpose", "moveaxis", "expand_dims", "atleast_1d", "a
 
 
 def gen_shape(tier, rng):
-    items = (i for i in _shape_inputs(rng, SHAPES + [(2, 2), (3, 3), (4, 2)]) if mirrored(i["fn"]))
+    items = (i for i in _shape_inputs(rng, SHAPES + [(2, 2), (3, 3), (4, 2)]) if mirrored(i["fn"]) and not empty_result(i))
     yield from thin(tier, rng, items, 0.25)
 
 
@@ -411,7 +432,7 @@ MISC = ["absolute", "negative", "positive", "square", "isfinite", "zeros_like", 
 
 
 def gen_misc_mirrored(tier, rng):
-    return (i for i in gen_misc(tier, rng) if mirrored(i["fn"]))
+    return (i for i in gen_misc(tier, rng) if mirrored(i["fn"]) and not empty_result(i))
 
 
 family("other_mirrored", gen_misc_mirrored, MISC,
@@ -422,7 +443,7 @@ family("other_mirrored", gen_misc_mirrored, MISC,
 # ------------------------------------------------------------------ size-0 arrays
 def gen_size0(tier, rng):
     for shape in SIZE0:
-        z = {"array": numpy.zeros(shape).tolist(), "dtype": "int64", "poly": True}
+        z = {"array": [], "dtype": "int64", "poly": True, "shape": list(shape)}
         zf = dict(z, dtype="float64")
         for fn in ("sum", "prod", "any", "all", "cumsum", "count_nonzero", "mean"):
             for ax in [None] + list(range(len(shape))):
@@ -440,11 +461,14 @@ def gen_size0(tier, rng):
         yield {"fn": "stack", "args": [{"seq": [z, z]}], "kwargs": {}}
         yield {"fn": "repeat", "args": [z, V(2)], "kwargs": {"axis": 0}}
         yield {"fn": "tile", "args": [z, V(2)], "kwargs": {}}
-        yield {"fn": "broadcast_arrays", "args": [z, A(rng, (), "int64")], "kwargs": {}} if shape[-1] == 0 else \
-              {"fn": "broadcast_arrays", "args": [z, A(rng, (shape[-1],), "int64")], "kwargs": {}}
+        yield {"fn": "broadcast_arrays", "args": [z, A(rng, (shape[-1],) if shape[-1] else (), "int64")], "kwargs": {}}
     yield {"fn": "concatenate", "args": [{"seq": [A(rng, (2,), "int64"), {"array": [], "dtype": "int64", "poly": True}]}], "kwargs": {}}
+    # non-empty arguments whose numpy result is (or contains) an empty array
+    routed = itertools.chain(_shape_inputs(rng, [(1,), (3,), (1, 1), (2, 3), (2, 1, 3)]), gen_misc("quick", rng))
+    yield from thin(tier, rng, (i for i in routed if mirrored(i["fn"]) and empty_result(i)), 0.5)
 
 
 family("size0", gen_size0, ["polynomial", "sum", "prod", "any", "all", "equal", "less", "reshape", "concatenate"],
-       "bounded: shapes (0,), (0,3), (2,0), (2,0,2); reductions over every axis, comparisons, arithmetic, division, shape functions; "
-       "numpy's conventions for empty arrays (sum=0, prod=1, all=True, result shapes) are the expected values")
+       "bounded: argument shapes (0,), (0,3), (2,0), (2,0,2): reductions over every axis, comparisons, arithmetic, division, shape "
+       "functions; plus the inputs of shape_functions/other_mirrored whose numpy result is or contains an empty array (repeat 0, empty "
+       "split pieces, diff of one element ...); numpy's conventions (sum=0, prod=1, all=True, result shapes) are the expected values")
